@@ -34,7 +34,19 @@ func H01_shape() {
 	if vParam("lite", 0) == 1 {
 		cfg.fields[0].terms = []string{""}
 		cfg.fields[0].multi = false
-		cfg.fields[1].terms = []string{"é"}
+		if vParam("liteMulti", 0) == 1 {
+			// (two terms and up to two values per document: a later value may have more distinct terms than an earlier one)
+			cfg.fields[0].terms = []string{"", "a"}
+			cfg.fields[0].multi = true
+			cfg.fields[0].always = true
+			cfg.fields = cfg.fields[:1]
+			cfg.nDocs = 1
+			cfg.freqZero = false
+			cfg.maxAP = 0
+			cfg.fields[0].fixLocs = true
+		} else {
+			cfg.fields[1].terms = []string{"é"}
+		}
 	}
 	docs, sp := vGenBatch(cfg)
 	var z ZapPlugin
